@@ -12,6 +12,10 @@ From JP.gen Require Import FactsGen.
 Definition set_stale (o : opts) (s : list bytes) : opts :=
   mkOpts (o_neg o) (o_limit o) (o_allow o) (o_ensure o) (o_esc o) s (o_nullsz o).
 
+(* deepCopy's depth check does not read the pooled residue *)
+Lemma copy_too_deep_stale o s v : copy_too_deep (set_stale o s) v = copy_too_deep o v.
+Proof. reflexivity. Qed.
+
 Definition erase_con (c : con) : con := match c with KDocNil s _ => KDocNil s [] | _ => c end.
 Definition erase_root (r : root) : root := match r with RCon c => RCon (erase_con c) | RNull => RNull end.
 Definition erase_st (st : state) : state := mkState (erase_root (s_root st)) (s_acc st).
@@ -318,6 +322,8 @@ Section EraseStep.
       destruct (find o c2 (b :: from) _) as [[| |r] c3]; reflexivity. }
     rewrite Src. clear Src.
     match goal with |- match ?x with _ => _ end = _ => destruct x as [v| |] end; try reflexivity.
+    change (copy_too_deep o' v) with (copy_too_deep (set_stale o []) v). rewrite (copy_too_deep_stale o [] v).
+    destruct (copy_too_deep o v); [reflexivity|].
     change (deep_copy o' v) with (deep_copy o v). destruct (deep_copy o v) as [cp sz].
     change (o_limit o') with (o_limit o).
     destruct ((0 <? o_limit o)%Z && (o_limit o <? acc + sz)%Z); [reflexivity|].
